@@ -109,7 +109,8 @@ def check_case(case, res):
     if text2 != text:
         res.violation('not-idempotent', case, attrs, text, text2)
     if case.get('file'):
-        d = tempfile.mkdtemp(prefix='c04.')
+        d = os.path.join(tempfile.gettempdir(), 'c04.reused')     # the same file name for every case of the process
+        os.makedirs(d, exist_ok=True)
         try:
             path = os.path.join(d, 'netlist.yaml')
             n.write_yaml(path)
